@@ -407,9 +407,11 @@ def correspondence(ctx):
     from tools.props import C19_bay
     if entry_point_witnesses(ctx):
         return
-    if C19_bay.bay_glue_correspondence(ctx, rng):
+    # a disagreement of the bay / flutter glue models that is no failing input by itself is a broken tie: go on looking for an input
+    has_input = lambda: any(v['found_input'] for v in ctx.violations)
+    if C19_bay.bay_glue_correspondence(ctx, rng) and has_input():
         return
-    if C19_bay.flutter_glue_correspondence(ctx, rng):
+    if C19_bay.flutter_glue_correspondence(ctx, rng) and has_input():
         return
     for t in range(ctx.scale(8, 40)):
         c, bad, ident = bay_delegation(ctx, rng)
